@@ -11,7 +11,7 @@
 // step  :=  T <dt>                         clock advance
 //        |  R <b> <op>*                    request of browser b: load, observe, ops, save, observe
 //        |  A <b> raw <hex>                attacker: session cookie of b := literal string (no expiry)
-//        |  A <b> hist <i> <mut>           attacker: session cookie of b := i-th session cookie ever emitted (mod count),
+//        |  A <b> hist <i> <mut>           attacker: session cookie of b := i-th distinct session cookie value ever emitted (mod count),
 //                                          mut in {id, flip, trunc, ext, upper, path}
 //        |  X <b> <keyhex> <valhex>        attacker: plant a cookie named prefix_key in jar b
 //        |  P <b> <id32> <deadline> <hex>  corrupt store: record under literal id, and session cookie of b := I<id>
@@ -150,8 +150,11 @@ public:
 			e.session = true;
 		if(del) { jar.erase(name); return; }
 		jar[name] = e;
-		if(name == PREFIX)
-			W->hist.push_back(e);
+		if(name == PREFIX) {
+			bool seen = false;
+			for(size_t i=0;i<W->hist.size();i++) if(W->hist[i].value == e.value) seen = true;
+			if(!seen) W->hist.push_back(e);
+		}
 	}
 	std::string get_session_cookie(std::string const &name)
 	{
@@ -408,7 +411,16 @@ static std::string run_case(std::vector<std::string> const &tok,int serial)
 					if(world.hist.empty()) have = false;
 					else {
 						e = world.hist[atoi(st.at(3).c_str()) % world.hist.size()];
-						if(st.at(4)!="id") { e.value = mutate(util::urldecode(e.value),st.at(4)); e.authentic = false; }
+						if(st.at(4)!="id") {
+							// a modified copy; an issued id is first replaced by its canonical name so that the
+							// literal is the same string for the model (it is an unknown id either way)
+							std::string v0 = util::urldecode(e.value);
+							if(v0.size()==33 && v0[0]=='I' && world.sidmap.count(v0.substr(1))) {
+								char buf[40]; snprintf(buf,sizeof(buf),"Iffffffffffffffff%016x",world.sidmap[v0.substr(1)]);
+								v0 = buf;
+							}
+							e.value = mutate(v0,st.at(4)); e.authentic = false;
+						}
 					}
 				}
 				e.session = true;
